@@ -165,3 +165,6 @@ def run(rep):
         else:
             rep.bad('C05.offset-assert', 'offset-of-field', where, 'no offset_of! comparison inside the offset assertion', undecided=True)
     rep.analysed = {'function': q, 'struct_template': tmpl[1], 'assertion_templates': [t[1] for t in size_ts + off_ts]}
+    # the section reaches the assembled output unconditionally (shared rule, lib/sections.py)
+    from sections import check_wiring
+    check_wiring(rep, 'C05.section-wiring', ['derive ( #('], 'struct-section')
